@@ -182,7 +182,10 @@ OnWritePacket(acc, pk) ==
                                   !.inb = IF known THEN [@ EXCEPT ![tg].acks = @ + 1, ![tg].owed = FALSE] ELSE @],
                    !.fails = @ \cup fails]
   ELSE IF pk.t = "PINGREQ" THEN
-    [acc EXCEPT !.m = [m EXCEPT !.conns[c] = cn1, !.pings = @ + 1], !.fails = @ \cup base]
+    \* remember how many PINGRESPs the client had read when this Ping submitted its request
+    [acc EXCEPT !.m = [m EXCEPT !.conns[c] = cn1, !.pings = @ + 1,
+                                !.calls = IF Has(@, acc.p) /\ @[acc.p].m = "Ping" THEN [@ EXCEPT ![acc.p].pongsW = m.pongs] ELSE @],
+                !.fails = @ \cup base]
   ELSE [acc EXCEPT !.m = [m EXCEPT !.conns[c] = cn1], !.fails = @ \cup base]
 
 OnWrite(m, e) ==
@@ -371,7 +374,7 @@ NotSubmitted == {"closed", "down", "max", "canceled", "deny"}
 
 OnCall(m, e) ==
   LET rec == [m |-> e.m, tag |-> e.tag, wrote |-> 0, reqid |-> 0, afterClose |-> m.closeRet, quit |-> e.quit,
-              filters |-> e.filters, pongs0 |-> m.pongs]
+              filters |-> e.filters, pongs0 |-> m.pongs, pongsW |-> -1]
       m1 == [m EXCEPT !.calls = Put(@, e.p, rec)]
   IN
   IF e.m \in {"Close", "Disconnect"} THEN R([m1 EXCEPT !.closeCalled = TRUE], {})
@@ -391,7 +394,7 @@ OnRet(m, e) ==
   LET cls == RangeOf(e.err)
       meth == e.m
       cl == IF Has(m.calls, e.p) THEN m.calls[e.p]
-            ELSE [m |-> meth, tag |-> 0, wrote |-> 0, reqid |-> 0, afterClose |-> FALSE, quit |-> "", filters |-> <<>>, pongs0 |-> 0]
+            ELSE [m |-> meth, tag |-> 0, wrote |-> 0, reqid |-> 0, afterClose |-> FALSE, quit |-> "", filters |-> <<>>, pongs0 |-> 0, pongsW |-> -1]
       main == cls \ Aux
       common ==
            If(meth \notin {"ReadSlices", "ReadAll", "Close"} /\ main # {} /\ ~(main \subseteq Allowed(meth)), "C14_DocumentedClass")
@@ -430,7 +433,10 @@ OnRet(m, e) ==
         m1 == [m0 EXCEPT !.subs = IF id # 0 /\ Has(@, id) THEN [@ EXCEPT ![id].open = FALSE] ELSE @]
     IN R(m1, common \cup own)
   ELSE IF meth = "Ping" THEN
-    R(m0, common \cup If(cls = {} /\ m.pongs = cl.pongs0, "C11_OwnResponse"))
+    \* a Ping that reports success was answered: a PINGRESP reached the client after its own PINGREQ went out
+    \* (not one that was read before: that one answers an earlier request of somebody else)
+    R(m0, common \cup If(cls = {} /\ m.pongs = cl.pongs0, "C11_OwnResponse")
+                 \cup If(cls = {} /\ ~m.hostile /\ (cl.pongsW < 0 \/ m.pongs = cl.pongsW), "C11_OwnResponse"))
   ELSE IF meth = "ReadSlices" THEN
     LET isClosed == "closed" \in cls
         got == (e.got \/ "big" \in cls) /\ e.tag # 0
